@@ -55,6 +55,8 @@ Leaves(e, path, self) ==
     [] e.k = "paren" -> Leaves(e.e, Sub(path, "e"), self)
     [] e.k = "cond"  -> Leaves(e.c, Sub(path, "c"), self) \cup Leaves(e.tt, Sub(path, "tt"), self) \cup Leaves(e.ff, Sub(path, "ff"), self)
     [] e.k = "index" -> Leaves(e.e, Sub(path, "e"), self) \cup Leaves(e.key, Sub(path, "key"), self)
+    \* e[*][key]: what follows a full splat is applied to each element - a computed key written there is an expression of its own
+    [] e.k = "splat" -> Leaves(e.e, Sub(path, "e"), self) \cup Leaves(e.key, Sub(path, "key"), self)
     [] e.k = "for"   -> Leaves(e.coll, Sub(path, "coll"), self) \cup Leaves(e.body, Sub(path, "body"), self)
     [] e.k = "call"  -> IF e.fn \in KnownFns THEN UNION { Leaves(e.es[i], Idx(path, "es", i), self) : i \in DOMAIN e.es } ELSE {}
     [] OTHER -> {}
@@ -241,6 +243,7 @@ OpenIn(e, path) ==   \* open sub-regions inside an arbitrary expression
     [] e.k \in {"un", "paren"} -> OpenIn(e.e, Sub(path, "e"))
     [] e.k = "cond" -> OpenIn(e.c, Sub(path, "c")) \cup OpenIn(e.tt, Sub(path, "tt")) \cup OpenIn(e.ff, Sub(path, "ff"))
     [] e.k = "index" -> OpenIn(e.e, Sub(path, "e")) \cup OpenIn(e.key, Sub(path, "key"))
+    [] e.k = "splat" -> {path}
     [] e.k = "for"  -> OpenIn(e.coll, Sub(path, "coll")) \cup OpenIn(e.body, Sub(path, "body"))
     [] OTHER -> {}
 
